@@ -562,7 +562,30 @@ def translate():
                 env[t.id] = e
         tail = tr.stmts(body[split + 1:], env)
         prefix_dump = "\n".join(ast.dump(s) for s in body[:split])
+    merge_unknowns = len(tr.unknowns)
     default_cond, complete_cond, hide_keys, shape = tr.finalize(fin)
+    fin_unknowns = len(tr.unknowns) - merge_unknowns
+    # Fallback when the reading left something not understood: synthesise the program from exhaustive measurement
+    # of the real method over the finite observation space (harness/probe_merge.py); the same Lean obligations
+    # are then checked against the synthesised program.
+    merge_source = finalize_source = "ast"
+    import probe_merge
+    from pedal.core.report import Report
+    from pedal.core.commands import set_correct
+    if merge_unknowns:
+        try:
+            tail, n = probe_merge.probe_merge(Feedback, FinalFeedback, Report)
+            merge_source = "probed (%d observations measured; the AST reading left %d construct(s) not understood)" % (n, merge_unknowns)
+        except Exception as e:  # noqa: keep the AST reading, unknowns and all
+            merge_source = "ast (probe not possible: %s: %s)" % (type(e).__name__, str(e)[:120])
+    if fin_unknowns or not shape:
+        try:
+            d2, c2, k2, s2 = probe_merge.probe_finalize(Feedback, FinalFeedback, Report, set_correct)
+            if s2:
+                default_cond, complete_cond, hide_keys, shape = d2, c2, k2, s2
+                finalize_source = "probed (32 states measured; the AST reading left %d construct(s) not understood)" % fin_unknowns
+        except Exception as e:  # noqa
+            finalize_source = "ast (probe not possible: %s: %s)" % (type(e).__name__, str(e)[:120])
 
     src = "\n".join([
         "import PedalModel.MergeIR",
@@ -588,6 +611,7 @@ def translate():
     changed = write_if_changed(out, src)
     return {"file": "PedalModel/Gen/MergeProgram.lean", "sha1": hashlib.sha1(src.encode()).hexdigest()[:12],
             "changed": changed, "not_understood": tr.unknowns[:10],
+            "merge_source": merge_source, "finalize_source": finalize_source,
             "suppression_prefix_sha1": hashlib.sha1(prefix_dump.encode()).hexdigest()[:12]}
 
 
